@@ -21,6 +21,9 @@ import (
 
 	"verifharness/internal/cat"
 	"verifharness/internal/faults"
+	"verifharness/internal/mig"
+	"verifharness/internal/p1"
+	"verifharness/internal/p4"
 	"verifharness/internal/tok"
 	"verifharness/internal/utypes"
 	"verifharness/internal/wire"
@@ -52,10 +55,45 @@ type Env struct {
 	HopN []int
 	// Info about the last Hop executed.
 	LastHop *wire.HopInfo
+	// Result of the last StackCall.
+	LastStack *p1.Result
+	// Processes of the migration family.
+	World *mig.World
+	// RegMig: the registration panicked.
+	LastRegPanic bool
 }
 
 // NewEnv creates an environment with n empty slots.
-func NewEnv(n int) *Env { return &Env{Slots: make([]error, n+1), HopN: make([]int, n+1)} }
+func NewEnv(n int) *Env {
+	return &Env{Slots: make([]error, n+1), HopN: make([]int, n+1), World: mig.NewWorld(n)}
+}
+
+// ExecMig performs a step of the migration family.
+func (env *Env) ExecMig(st *Step) (panicked string) {
+	defer func() {
+		if r := recover(); r != nil {
+			panicked = fmt.Sprint(r)
+		}
+	}()
+	w := env.World
+	switch st.Op {
+	case "ProcInit":
+		w.Init(st.N, st.S)
+	case "RegMig":
+		env.LastRegPanic = w.RegMig(st.N, st.S[0], st.S[1])
+	case "MkLocal":
+		env.Slots[st.Dst] = w.MkLocal(st.N, st.A[0][0], tok.Str(st.S))
+		w.Own[st.Dst] = st.N
+	case "Xfer":
+		p, q := st.N/10, st.N%10
+		env.Slots[st.Dst] = w.Xfer(env.Slots[st.Src[0]], p, q)
+		w.Own[st.Dst] = q
+	case "Probe":
+	default:
+		panic("harness: unknown migration op " + st.Op)
+	}
+	return ""
+}
 
 func (env *Env) src(st *Step, i int) error {
 	if len(st.Src) <= i {
@@ -131,10 +169,17 @@ func (env *Env) build(st *Step) error {
 	e := env.src(st, 0)
 	x := env.src(st, 1)
 	s := ""
-	if st.Op != "DecodeFault" {
+	if st.Op != "DecodeFault" && st.Op != "StackCall" {
 		s = tok.Str(st.S)
 	}
 	switch st.Op {
+	case "StackCall":
+		r := p4.F4(st.S[0], st.N)
+		env.LastStack = &r
+		if r.Err != nil {
+			return r.Err
+		}
+		return goerrors.New("domain only")
 	case "DecodeFault":
 		enc := faults.Build(st.S[0], st.A[0][0], st.A[1][0], st.A[2][0], tok.Num(st.A[3][0]), tok.Num(st.A[4][0]))
 		res, p := faults.Decode(enc)
